@@ -135,6 +135,8 @@ class Monitor(object):
             finding = 'KF-C07-1'
         if finding is None and 'kf_c10_1' in self.trigger and prop in ('C01', 'C02', 'C03', 'C04', 'C10'):
             finding = 'KF-C10-1'       # a re-used address: stale member tables + a member set replayed from a log prefix
+        if finding is None and 'kf_c10_2' in self.trigger and prop in ('C01', 'C02', 'C03', 'C04', 'C10'):
+            finding = 'KF-C10-2'       # a joiner whose start list lacks a member of the committed configuration
         if finding is None and any(k.startswith('kf_c08_1') for k in self.trigger) and prop in ('C01', 'C02', 'C03', 'C04'):
             finding = 'KF-C08-1'       # acknowledged entries were lost by a kill inside the journal head drop
         if finding is not None:
@@ -204,6 +206,21 @@ class Monitor(object):
                 self.trigger.setdefault('memory_loss', self.step)
             return
         if k == 'restart':
+            if (rec.cfg.get('dyn') and ev[1] < RO_BASE and ev[1] not in self.incarnation and self.committed
+                    and ev[1] not in rec.cfg['voters']):
+                # a new voter is started with a member list that LACKS a member of the committed configuration (the list
+                # was read from a node while a removal was pending that was never committed): known finding KF-C10-2 -
+                # plain log replay never repairs the joiner's table
+                cfgc = set(rec.cfg['voters'])
+                for idx_ in sorted(self.committed):
+                    kind_, a_, b_ = sim.cid_of_command(self.committed[idx_][0])
+                    if kind_ == 2:
+                        if a_ == 1:
+                            cfgc.add(b_)
+                        else:
+                            cfgc.discard(b_)
+                if (cfgc - {ev[1]}) - set(ev[2]):
+                    self.trigger.setdefault('kf_c10_2', self.step)
             if ev[1] in self.ever_removed and ev[1] < RO_BASE and not self.journaled:
                 # an address that was a member before comes back as a fresh, empty process (allowed by the operator
                 # discipline of C10): known finding KF-C10-1 - from here on cluster-wide safety records are its symptoms
